@@ -229,6 +229,10 @@ MUST_FIRE += [
                                          rep1(S + "stabilizer.py", "import numpy as np\n", "import numpy as np\nimport functools\n")), "memoised arrays stored in the object without a copy"),
     ("m81", ["C19"], ["K12"], rep1(S + "graph.py", "        result = self.copy()\n        result.local_complementation(vertex)\n        return result", "        nb = self.adjacency_matrix[vertex]\n        return Graph(self.adjacency_matrix ^ np.outer(nb, nb))"), "copying local complementation without clearing the diagonal"),
     ("m82", ["C11"], ["W1"], rep1(S + "tomography.py", "        self.qubits = measured_qubits\n", "        self.qubits = tuple(sorted(measured_qubits)) if measured_qubits is not None else None\n"), "fitter stores the measured qubits sorted"),
+    ("m83", ["C11"], ["B2"], multi(rep1(S + "tomography.py", "            for key, value in counts.items():\n                key = key.replace(\" \", \"\")  # might contain spaces to separate registers\n", "            for key, value in marginal_counts(counts, list(qubits)).items():\n"),
+                                         rep1(S + "tomography.py", "                # keys are little-endian (qubit q is at position -1-q) and so is the stored bitstring\n                key = \"\".join(key[-1 - index] for index in reversed(qubits))\n", ""),
+                                         rep1(S + "tomography.py", "from qiskit.result import Result\n", "from qiskit.result import Result, marginal_counts\n")), "marginalisation delegated to marginal_counts (sorts the indices)"),
+    ("m84", ["C08"], ["NI2"], rep1(S + "stabilizer.py", "        RS = np.concatenate([self.R, self.S])\n        rank = f2.rank(RS)", "        RS = np.concatenate([self.R, self.S])\n        rank = f2.rank(np.concatenate([self.R, self.S, self.phases.reshape(1, n)]))"), "rank of the validity check taken over signs as well"),
     ("m72", ["C13"], ["A3"], rep1(S + "circuit_lookup.py", "result.circuits = [circuit.copy() for circuit in self.circuits]", "result.circuits = list(self.circuits)"), "fresh list of the cached circuits"),
 ]
 
